@@ -402,6 +402,14 @@ impl CaseEnv {
     }
 }
 
+/// wall-clock deadline (seconds since the epoch) after which explorations stop and report "incomplete"
+pub static DEADLINE: std::sync::atomic::AtomicU64 = std::sync::atomic::AtomicU64::new(u64::MAX);
+
+fn past_deadline() -> bool {
+    let now = std::time::SystemTime::now().duration_since(std::time::UNIX_EPOCH).map(|d| d.as_secs()).unwrap_or(0);
+    now > DEADLINE.load(std::sync::atomic::Ordering::Relaxed)
+}
+
 /// Explore every schedule of a case; `f` sees each complete schedule. Returns (runs, complete?)
 pub fn explore_case(
     env: &CaseEnv,
@@ -413,7 +421,7 @@ pub fn explore_case(
     let mut stack: Vec<Vec<usize>> = vec![vec![]];
     let mut runs = 0usize;
     while let Some(prefix) = stack.pop() {
-        if runs >= max_runs {
+        if runs >= max_runs || (runs % 64 == 63 && past_deadline()) {
             return Ok((runs, false));
         }
         let o = env.run_one(case, &prefix, explore);
@@ -784,6 +792,8 @@ fn resolve_abs(case: &Case, env: &CaseEnv) -> Case {
 pub fn run_property(prop: &str, tier: &str) -> i32 {
     let rep = Report::new(prop, tier);
     let thorough = rep.thorough();
+    let now = std::time::SystemTime::now().duration_since(std::time::UNIX_EPOCH).map(|d| d.as_secs()).unwrap_or(0);
+    DEADLINE.store(now + rep.cap_s() as u64 + 15, std::sync::atomic::Ordering::Relaxed);
     let cases = plan(prop, thorough);
     rep.set("cases_planned", json!(cases.len()));
     rep.assume("std::sync::mpsc and the threadpool crate are correct (their internals are not interleaved)");
